@@ -372,9 +372,10 @@ section conv
 variable {σ : Type} (resolve : σ → String) (intern : String → σ)
 
 mutual
-/-- `Value::to_ffi_value` (the error strings are the source's) -/
+/-- `Value::to_ffi_value` (the error strings are the source's).  An error value is refused like the five opaque
+variants: `FfiValue::ErrorV` stays in the enum (wire indices unchanged) but is never produced here. -/
 def toFfi : Value σ → Except String FfiValue
-  | .errorV _ => .ok .errorV
+  | .errorV _ => .error "Error values cannot be serialized across FFI boundaries"
   | .unit => .ok .unit
   | .number n => .ok (.number n)
   | .string s => .ok (.string (resolve s))
@@ -424,7 +425,7 @@ end
 mutual
 /-- `FfiValue::to_value` -/
 def toValue : FfiValue → Value σ
-  | .errorV => .unit          -- "Best effort"
+  | .errorV => .unit          -- "Best effort"; reachable only from bytes `to_ffi_value` did not write
   | .unit => .unit
   | .number n => .number n
   | .string s => .string (intern s)
@@ -526,7 +527,8 @@ def HasErrorVFields {σ} : List (σ × Value σ) → Prop
 end
 
 mutual
-/-- what a crossable value comes back as: every `ErrorV` replaced by `Unit` -/
+/-- every `ErrorV` replaced by `Unit`: what `to_value ∘ to_ffi_value` returned BEFORE `to_ffi_value` refused error
+values (finding F9, repaired).  Kept only so that the judge can name that regression (`errorv-to-unit`). -/
 def Value.eraseErrors {σ} : Value σ → Value σ
   | .errorV _ => .unit
   | .array vs => .array (eraseErrorsList vs)
